@@ -531,6 +531,18 @@ def r05_2(ctx, rr):
                 cleared = True
                 order_ok = True
             ored = True
+    # ... or the two cases written apart: `if b { word |= mask } else { word &= !mask }` (the false arm clears)
+    if not (cleared and order_ok and ored):
+        bpar = [p for p in b.params if p.get("k") == "PBind" and p.get("name") != "self"]
+        for n in walk(b.body):
+            if n.get("k") == "If" and "el" in n and n["c"].get("k") == "Path" and bpar and n["c"].get("id") == bpar[0]["id"]:
+                t_ops = [x for x in walk(n["th"]) if x.get("k") == "AssignOp"]
+                e_ops = [x for x in walk(n["el"]) if x.get("k") == "AssignOp"]
+                if len(t_ops) == 1 and len(e_ops) == 1 and t_ops[0]["op"] == "|=" and e_ops[0]["op"] == "&=":
+                    mt = W.expand(W.T.term(t_ops[0]["r"]))
+                    me = W.expand(W.T.term(e_ops[0]["r"]))
+                    if me == ("un", "!", mt) and mt[0] == "op" and mt[1] == "<<" and mt[2] == ("int", 1) and show(F, t_ops[0]["l"]) == show(F, e_ops[0]["l"]):
+                        cleared = order_ok = ored = True
     rr.instances += 1
     rr.check(cleared and order_ok and ored, "BitVec::push:clears-bit", "BitVec::push must clear the target bit before or-ing the new value in (pop and shrinking resize leave stale ones behind)", b.span)
     # set_unchecked for BitVec clears on false and sets on true (both arms present)
@@ -634,6 +646,13 @@ def r11_4(ctx, rr):
             if rt[0] == "op" and rt[1] == ">>" and rt[3] == extra and it == mk_op("-", n_words, ("int", 1)) and K.entails(atom_le(("int", 1), rename_back(extra, W, b))):
                 state["mask"] = True
             elif rt[0] == "op" and rt[1] == ">>" and rt[3] == extra and it == mk_op("-", n_words, ("int", 1)):
+                state["mask"] = True
+        # the last word reached as `*bits.last_mut().unwrap()` (the vector has exactly n_words words)
+        if n.get("k") == "Assign" and n["l"].get("k") == "Unary" and n["l"].get("op") == "*":
+            tgt = n["l"]["e"]
+            names = [x["name"] for x in walk(tgt) if x.get("k") == "MethodCall"]
+            rt = rename_vars(W.expand(W.T.term(n["r"])), ren)
+            if "last_mut" in names and rt[0] == "op" and rt[1] == ">>" and rt[3] == extra:
                 state["mask"] = True
     Walker(F, b, on_node=on_node).run()
     rr.instances += 1
